@@ -15,7 +15,7 @@ pub fn def() -> PropDef {
     PropDef {
         id: "C01",
         level: "exploration",
-        rule: "byte strings from seven generators (raw bytes; stack-aware programs over the whole opcode table with boundary \
+        rule: "byte strings from eight generators (raw bytes; well-formed compiler idioms over a ground-truth layout; stack-aware programs over the whole opcode table with boundary \
                operands; constant programs; control-flow shapes with invalid targets; loops; hostile mask/shift/hash storage \
                idioms with constants >= 256, near 2^64 and 2^255; mutated real contracts) x generated VM configurations (positive \
                limits) x strict/permissive; each run through the staged API (disassemble, prepare_vm, execute, prepare_unifier, \
@@ -44,6 +44,7 @@ fn health(acc: &Acc, _t: Tier) -> Vec<String> {
             ("gen:cf", 100),
             ("gen:loop", 100),
             ("gen:hostile-idiom", 300),
+            ("gen:idiom", 300),
             ("gen:mutreal", 100),
             ("reached-typechecker", 1000),
             ("layout-nonempty", 300),
@@ -348,7 +349,12 @@ pub fn gen_case(ch: &mut Chooser, tier: Tier) -> Case {
             .code(),
         ),
         12 | 13 => ("loop", gen::g_loop(ch).b.code()),
-        14..=17 => ("hostile-idiom", g_hostile_idiom(ch).code()),
+        14..=16 => ("hostile-idiom", g_hostile_idiom(ch).code()),
+        17 => {
+            // well-formed compiler idioms over a hidden ground-truth layout (as for C04)
+            let t = crate::idiom::gen_truth(ch, 8);
+            ("idiom", asm::assemble(&crate::idiom::compile(&t, 0xa0b0_0000)))
+        }
         _ => {
             let max = tier.pick(300, 1500);
             ("mutreal", gen::g_mutreal(ch, max).1)
